@@ -155,7 +155,7 @@ def gen_registry(rng, ntests, *, empty_groups=False, repeat_groups=False, with_p
 
 def read_registry(ops):
     """-> dict(package, filter, tests=[dict(group,name,file,line,ignored,acts=[(kind,...)])]) up to the first `run`"""
-    reg = {"package": b"", "filter": None, "tests": []}
+    reg = {"package": b"", "filter": None, "tests": [], "repeat": 1}
     for l in ops:
         w = l.split()
         if not w:
@@ -163,7 +163,9 @@ def read_registry(ops):
         try:
             if w[0] == "run":
                 break
-            if w[0] == "package" and len(w) == 2:
+            if w[0] == "repeat" and len(w) == 2 and w[1] in "123456789":
+                reg["repeat"] = int(w[1])
+            elif w[0] == "package" and len(w) == 2:
                 reg["package"] = unhx(w[1])
             elif w[0] == "filter" and len(w) == 4:
                 reg["filter"] = (unhx(w[1]), w[2] == "1", w[3] == "1")
